@@ -177,6 +177,10 @@ func gen(r0 *Rng, tier string, emit func(c Sx)) {
 		}
 		bl := genTree(r, n)
 		nops := r.Range(4, 18)
-		emit(L(treeSx(bl), genOps(r, bl, nops, i%4 == 3, i%3 != 0)))
+		c := SL{treeSx(bl), genOps(r, bl, nops, i%4 == 3, i%3 != 0)}
+		if i%3 == 1 {
+			c = append(c, I(1)) // report recorded deviations on this case
+		}
+		emit(c)
 	}
 }
